@@ -38,7 +38,7 @@ BuiltinName(T) ==
 \* the element name of an item of SEQUENCE OF / SET OF T: the referenced type's name, else the
 \* built-in type name (tags are transparent)
 RECURSIVE ItemName(_)
-ItemName(T) == IF T.k = "REF" THEN T.n ELSE IF T.k = "TAGGED" THEN ItemName(T.t) ELSE BuiltinName(T)
+ItemName(T) == IF IsRef(T) THEN T.n ELSE IF T.k = "TAGGED" THEN ItemName(T.t) ELSE BuiltinName(T)
 
 \* g: white-space (or a comment) may precede this token; true only for tokens that are direct
 \* children of a constructed type's content (between member elements), where it is insignificant
